@@ -276,3 +276,26 @@ func normalizeSliceIndices(start, end value, length int) (int, int, error) {
 	}
 	return startIdx, endIdx, nil
 }
+
+// copyValue returns a deep copy of an array or map value. All other
+// values are immutable and returned as they are.
+func copyValue(v value) value {
+	switch v := v.(type) {
+	case arrayVal:
+		elements := make([]value, len(v.Elements))
+		for i, e := range v.Elements {
+			elements[i] = copyValue(e)
+		}
+		return arrayVal{Elements: elements}
+	case mapVal:
+		m := mapVal{
+			order: append([]stringVal{}, v.order...),
+			m:     make(map[stringVal]value, len(v.m)),
+		}
+		for key, e := range v.m {
+			m.m[key] = copyValue(e)
+		}
+		return m
+	}
+	return v
+}
